@@ -308,6 +308,50 @@ def gen_multi(rng, tier):
     return " ".join(c) + "|" + ";".join(ops)
 
 
+def gen_udpq(rng, tier):
+    """UDP: sendto reports EWOULDBLOCK/EAGAIN (once or k times in a row), further queries are
+    queued on the same UDP connection before the socket becomes writable, then the write event
+    flushes SEVERAL frames from one out buffer: each must leave as its own datagram, exactly one
+    DNS message, without the length prefix."""
+    c = cfg_common(rng, seg=False)
+    flags = []
+    if rng.random() < 0.6:
+        flags.append("noedns")
+    if rng.random() < 0.4:
+        flags.append("stayopen")
+    if not flags:
+        flags.append("none")
+    c.insert(0, "servers=1 flags=%s tries=3 timeout=1000" % ",".join(flags))
+    if rng.random() < 0.4:
+        c.append("udpmaxq=%d" % rng.choice([4, 8, 16]))
+    if rng.random() < 0.5:
+        c.append("sockstatecb=1")
+    if rng.random() < 0.3:
+        c.append("pendingwritecb=1")
+    mode = rng.random()
+    if mode < 0.35:
+        # the socket pattern blocks the first k sends of every UDP socket
+        c.append("wpat=%s" % ",".join(["0"] * rng.choice([1, 2, 3, 5]) + ["1000"]))
+    ops = ["note fam=udpq"]
+    T = 0
+    for b in range(rng.choice([1, 2, 3])):
+        if mode >= 0.35:
+            k = rng.choice([1, 1, 2, 3, 4])
+            for i in range(1, k + 1):
+                ops.append("fail sendto %d %s" % (i, rng.choice(["EAGAIN", "EWOULDBLOCK"])))
+        for _ in range(rng.choice([2, 2, 3, 4, 6, 9])):
+            T += 1
+            ops.append("send %d %s IN %s rd%s" % (T, name(T), rng.choice(TYPES), rng.choice(["", "", " edns"])))
+            if rng.random() < 0.15:
+                ops.append("flushwrites")
+        ops.extend(RUN)
+        ops.append("rspall " + answer(rng))
+        ops.extend(RUN)
+    ops.append("rspall " + answer(rng))
+    ops.extend(RUN)
+    return " ".join(c) + "|" + ";".join(ops)
+
+
 def hexframe(payload):
     n = len(payload)
     return "%04x" % n + "".join("%02x" % b for b in payload)
@@ -405,18 +449,40 @@ def gen_c20(rng, tier, n):
     out = []
     for _ in range(n):
         r = rng.random()
-        if r < 0.45:
+        if r < 0.42:
             c = gen_pure(rng, tier)
-        elif r < 0.62:
+        elif r < 0.57:
             c = gen_tc(rng, tier)
-        elif r < 0.78:
+        elif r < 0.71:
             c = gen_mixed(rng, tier)
-        elif r < 0.90:
+        elif r < 0.82:
             c = gen_multi(rng, tier)
+        elif r < 0.91:
+            c = gen_udpq(rng, tier)
         else:
             c = gen_junk(rng, tier)
         if rng.random() < 0.35:
             # event loop that reports writability only while the library asks for it
+            c = c.replace("run @", "runw @")
+        out.append(finish(c))
+    return out
+
+
+def gen_frames(rng, tier, n):
+    """C03 (frames handed to sockets): the chan20 engine judged on the frame oracles only;
+    histories that put several frames into one out buffer (UDP would-block, TCP batches)."""
+    out = []
+    for _ in range(n):
+        r = rng.random()
+        if r < 0.45:
+            c = gen_udpq(rng, tier)
+        elif r < 0.75:
+            c = gen_pure(rng, tier)
+        elif r < 0.88:
+            c = gen_multi(rng, tier)
+        else:
+            c = gen_tc(rng, tier)
+        if rng.random() < 0.35:
             c = c.replace("run @", "runw @")
         out.append(finish(c))
     return out
@@ -504,6 +570,14 @@ def gen_c10_one(rng, tier):
         ops.append("qlen")
         ops.append(rng.choice(["fds", "fds", "getsock"]))
 
+    if not usevc and rng.random() < 0.15:
+        # UDP send would block k times, more queries queue up on the same connection
+        for i in range(1, rng.choice([1, 2, 3]) + 1):
+            ops.append("fail sendto %d %s" % (i, rng.choice(["EAGAIN", "EWOULDBLOCK"])))
+        for _ in range(rng.choice([2, 3, 5])):
+            T += 1
+            ops.append("send %d c%dx.example IN A rd" % (T, T))
+        ops.append("run 300")
     for _ in range(steps):
         r = rng.random()
         if r < 0.30:
